@@ -40,9 +40,10 @@ type PathElem struct {
 }
 
 type PtrV struct {
-	Nil  bool
-	Loc  *Loc
-	Path []PathElem
+	Nil   bool
+	Loc   *Loc
+	Path  []PathElem
+	NilIf *Term // the pointer is nil exactly when this holds (nil: never)
 }
 
 // SliceV: view [Off, Off+Len) on a backing array location. Lengths are concrete.
@@ -81,6 +82,9 @@ type IfaceV struct {
 	Typ types.Type
 	V   Value
 }
+
+// NilLit is the untyped nil literal before it meets a type.
+type NilLit struct{}
 
 // OpaqueV stands for a value the translation does not model (errors, log strings…).
 type OpaqueV struct {
@@ -262,6 +266,16 @@ func (ex *Exec) symbolicValue(name string, t types.Type) Value {
 	switch u := t.Underlying().(type) {
 	case *types.Basic:
 		if s, ok := scalarSort(t); ok {
+			if k, bound := ex.binding[name]; bound {
+				w, _, isInt := intInfo(t)
+				if !isInt {
+					unsupported("split variable %s is not an integer", name)
+				}
+				v := ts.BV(uint64(k), w)
+				ex.inputs = append(ex.inputs, &InputVar{Name: name, Term: v, Type: t})
+				ex.boundSeen[name] = true
+				return v
+			}
 			v := ts.Var(name, s)
 			ex.inputs = append(ex.inputs, &InputVar{Name: name, Term: v, Type: t})
 			return v
@@ -366,8 +380,22 @@ func (ex *Exec) iteValue(c *Term, a, b Value) Value {
 		return r
 	case *PtrV:
 		y, ok := b.(*PtrV)
-		if ok && ptrSame(x, y) {
+		if ok && ptrSame(x, y) && x.NilIf == y.NilIf {
 			return x
+		}
+		if ok {
+			// nil on one side, or the same target with different nil conditions
+			xn, yn := ex.ptrNilCond(x), ex.ptrNilCond(y)
+			switch {
+			case x.Nil && y.Nil:
+				return x
+			case x.Nil:
+				return &PtrV{Loc: y.Loc, Path: y.Path, NilIf: ex.ts.Ite(c, ex.ts.True(), yn)}
+			case y.Nil:
+				return &PtrV{Loc: x.Loc, Path: x.Path, NilIf: ex.ts.Ite(c, xn, ex.ts.True())}
+			case ptrSameTarget(x, y):
+				return &PtrV{Loc: x.Loc, Path: x.Path, NilIf: ex.ts.Ite(c, xn, yn)}
+			}
 		}
 		unsupported("merge of different pointers")
 	case *SliceV:
@@ -436,6 +464,28 @@ func (ex *Exec) iteValue(c *Term, a, b Value) Value {
 	return nil
 }
 
+func (ex *Exec) ptrNilCond(p *PtrV) *Term {
+	if p.Nil {
+		return ex.ts.True()
+	}
+	if p.NilIf != nil {
+		return p.NilIf
+	}
+	return ex.ts.False()
+}
+
+func ptrSameTarget(x, y *PtrV) bool {
+	if x.Loc != y.Loc || len(x.Path) != len(y.Path) {
+		return false
+	}
+	for i := range x.Path {
+		if x.Path[i] != y.Path[i] {
+			return false
+		}
+	}
+	return true
+}
+
 func ptrSame(x, y *PtrV) bool {
 	if x.Nil || y.Nil {
 		return x.Nil && y.Nil
@@ -456,11 +506,13 @@ func (ex *Exec) strTerm(s *StrV) *Term {
 	if !s.Concrete {
 		return s.T
 	}
+	ex.prog.mu.Lock()
 	id, ok := ex.prog.strIntern[s.S]
 	if !ok {
 		id = int64(len(ex.prog.strIntern)) + 1
 		ex.prog.strIntern[s.S] = id
 	}
+	ex.prog.mu.Unlock()
 	// literals get negative identities so that symbolic strings constrained >= 0
 	// are never silently equal to one of them unless the solver chooses so.
 	return ex.ts.Int(id)
@@ -508,7 +560,19 @@ func (ex *Exec) eqValue(a, b Value) *Term {
 			unsupported("== between pointer and %T", b)
 		}
 		if x.Nil || y.Nil {
-			return ts.Bool(x.Nil && y.Nil)
+			if x.Nil && y.Nil {
+				return ts.True()
+			}
+			if x.Nil {
+				return ex.ptrNilCond(y)
+			}
+			return ex.ptrNilCond(x)
+		}
+		if x.NilIf != nil || y.NilIf != nil {
+			if ptrSameTarget(x, y) {
+				return ts.Eq(ex.ptrNilCond(x), ex.ptrNilCond(y))
+			}
+			return ts.And(ex.ptrNilCond(x), ex.ptrNilCond(y))
 		}
 		return ts.Bool(ptrSame(x, y))
 	case *IfaceV:
